@@ -307,6 +307,129 @@ func genC16Seq(rt *rapid.T) C16Seq {
 	return s
 }
 
+// C16Sess: one long-lived store; values are set, updated IN PLACE through references the
+// caller still holds, and bound repeatedly: every Bind must reflect the value as it is now.
+type SessStep struct {
+	Op     string `json:"op"` // set | mutate | bind
+	Key    string `json:"key"`
+	Src    Recipe `json:"src,omitempty"`
+	Dest   string `json:"dest,omitempty"`
+	Prepop bool   `json:"prepop,omitempty"`
+}
+
+type C16Sess struct {
+	Steps []SessStep `json:"steps"`
+}
+
+func mutateInPlace(v any, i int) bool {
+	switch x := v.(type) {
+	case map[string]any:
+		x["mutated"] = i
+		x["name"] = fmt.Sprintf("changed-%d", i)
+		return true
+	case []any:
+		if len(x) > 0 {
+			x[0] = i
+			return true
+		}
+	case []int:
+		if len(x) > 0 {
+			x[0] = i
+			return true
+		}
+	case *Tagged:
+		if x != nil {
+			x.ID, x.Name = i, fmt.Sprintf("changed-%d", i)
+			return true
+		}
+	case map[string]int:
+		if x != nil {
+			x["mutated"] = i
+			return true
+		}
+	}
+	return false
+}
+
+func checkC16Sess(t *testing.T, sc C16Sess) Verdict {
+	s := flyt.NewSharedStore()
+	cur := map[string]any{}
+	mutated, rebound := false, false
+	bound := map[string]int{}
+	for i, st := range sc.Steps {
+		switch st.Op {
+		case "set":
+			var v any
+			if p, _ := recoverCall(func() { v = st.Src.build() }); p {
+				continue
+			}
+			s.Set(st.Key, v)
+			cur[st.Key] = v
+		case "mutate":
+			if v, present := cur[st.Key]; present && mutateInPlace(v, i) {
+				if bound[st.Key] > 0 {
+					mutated = true
+				}
+			}
+		case "bind":
+			v, present := cur[st.Key]
+			dF := buildDest(st.Dest, v, st.Prepop)
+			dR := buildDest(st.Dest, v, st.Prepop)
+			var err error
+			if m := guard("SharedStore.Bind", func() { err = s.Bind(st.Key, dF) }); m != "" {
+				return bad("C16:panic:session", "step %d: %s", i, m)
+			}
+			refErr := refBind(v, present, dR, false)
+			if (err != nil) != refErr {
+				return bad("C16:session-error", "step %d: Bind(%q -> %s) error=%v, reference on the CURRENT value error=%v (binds of this key so far: %d)", i, st.Key, st.Dest, err, refErr, bound[st.Key])
+			}
+			if !deepEq(dF, dR) {
+				return bad("C16:session-stale", "step %d: Bind(%q -> %s) gave %#v, the JSON round-trip of the value as it is now gives %#v (binds of this key so far: %d; value was updated in place: %v)", i, st.Key, st.Dest, deref(dF), deref(dR), bound[st.Key], mutated)
+			}
+			if present && v != nil {
+				d2 := buildDest(st.Dest, v, st.Prepop)
+				err2 := flyt.NewResult(v).Bind(d2)
+				if (err2 != nil) != (err != nil) || !deepEq(d2, dF) {
+					return bad("C16:session-store-vs-result", "step %d: store.Bind and result.Bind disagree on key %q -> %s", i, st.Key, st.Dest)
+				}
+			}
+			if bound[st.Key] > 0 && mutated {
+				rebound = true
+			}
+			bound[st.Key]++
+		}
+	}
+	return ok(rebound, "session")
+}
+
+func genC16Sess(rt *rapid.T) C16Sess {
+	keys := []string{"a", "b", "c"}
+	srcs := []Recipe{
+		{K: "map", Keys: []string{"id", "name", "ID", "Name"}, Elems: []Recipe{numRecipe("int", "7"), {K: "string", S: "bob"}, numRecipe("float64", "3"), {K: "string", S: "x"}}},
+		{K: "TaggedPtr", N: "3", S: "nm"}, {K: "anyslice", Elems: []Recipe{numRecipe("int", "1"), {K: "string", S: "two"}}},
+		{K: "intslice", Elems: []Recipe{numRecipe("int", "1"), numRecipe("int", "2")}}, {K: "mapint", Keys: []string{"a", "b"}}, {K: "Tagged", N: "4", S: "val"}, {K: "string", S: "plain"},
+	}
+	dests := []string{"tagged", "loose", "mapstrany", "any", "anyslice", "intslice", "mapstrint", "same", "partial", "string"}
+	n := rapid.IntRange(3, 14).Draw(rt, "n")
+	var s C16Sess
+	for i := 0; i < n; i++ {
+		st := SessStep{Key: keys[uniform(rt, len(keys), "key")]}
+		switch uniform(rt, 5, "op") {
+		case 0:
+			st.Op, st.Src = "set", srcs[uniform(rt, len(srcs), "src")]
+		case 1, 2:
+			st.Op = "mutate"
+		default:
+			st.Op, st.Dest, st.Prepop = "bind", dests[uniform(rt, len(dests), "dest")], rapid.Bool().Draw(rt, "prepop")
+		}
+		if i == 0 {
+			st.Op, st.Src = "set", srcs[uniform(rt, len(srcs), "src0")]
+		}
+		s.Steps = append(s.Steps, st)
+	}
+	return s
+}
+
 func TestC16(t *testing.T) {
 	r := newRun(t, "C16")
 	defer r.finish()
@@ -334,6 +457,7 @@ func TestC16(t *testing.T) {
 	r.exhaustive(fmt.Sprintf("%d hostile source values x %d destination forms (own type, **T, *any empty/prepopulated/holding a pointer, compatible/incompatible structs, scalars, slices, maps, typed nil pointer, non-pointer, nil) x store and result, plus the missing-key case", len(hv), len(destForms)))
 	rapidPart(r, "rand", r.pick(6000, 100000), genC16, checkC16)
 	rapidPart(r, "sequences", r.pick(3000, 40000), genC16Seq, checkC16Seq)
+	rapidPart(r, "store-session", r.pick(3000, 40000), genC16Sess, checkC16Sess)
 }
 
 func FuzzC16(f *testing.F) {
@@ -352,4 +476,5 @@ func FuzzC16(f *testing.F) {
 func init() {
 	registerReplay("C16", checkC16)
 	registerReplaySub("C16", "sequences", checkC16Seq)
+	registerReplaySub("C16", "store-session", checkC16Sess)
 }
